@@ -567,6 +567,40 @@ func (tr *FnTrans) bumpAlloc() {
 	n := tr.vc.fresh("$alloc", sortInt)
 	tr.vc.fact(sLe(old, n), "")
 	tr.cur.m[compAlloc] = n
+	tr.ghostZeroBeyond(n)
+}
+
+// ghostZeroBeyond: ghost maps keyed by references that have just been
+// havoced (effects of a callee or of loop iterations) have the zero value for
+// objects that do not exist yet (same convention as at function entry).
+func (tr *FnTrans) ghostZeroBeyond(alloc string) {
+	vc := tr.vc
+	pend := vc.freshGhosts
+	vc.freshGhosts = nil
+	for _, cv := range pend {
+		name := strings.TrimPrefix(cv[0], "G$")
+		g, ok := tr.w.ghosts[name]
+		if !ok {
+			continue
+		}
+		gt := strings.ReplaceAll(g.Type, " ", "")
+		isLock := strings.HasPrefix(gt, "map[lock]")
+		if !strings.HasPrefix(gt, "map[ref]") && !isLock {
+			continue
+		}
+		es := ghostSort(gt[strings.Index(gt, "]")+1:])
+		zero := "0"
+		if es == sortBool {
+			zero = "false"
+		} else if es != sortInt {
+			continue
+		}
+		idx := "i"
+		if isLock {
+			idx = fmt.Sprintf("(div i %d)", lockStride)
+		}
+		vc.fact(fmt.Sprintf("(forall ((i Int)) (! (=> (>= %s %s) (= (select %s i) %s)) :pattern ((select %s i))))", idx, alloc, cv[1], zero, cv[1]), "")
+	}
 }
 
 // ---------------------------------------------------------------- driver
@@ -1161,6 +1195,7 @@ func (tr *FnTrans) loopHeader(li *loopInfo, phiEntry map[*ssa.Phi]Val) {
 			vc.fact(sLe(old, n), "")
 			tr.cur.m[compAlloc] = n
 		}
+		tr.ghostZeroBeyond(vc.hget(tr.cur, compAlloc))
 	}
 	for _, in := range b.Instrs {
 		phi, ok := in.(*ssa.Phi)
